@@ -102,6 +102,7 @@ type Op struct {
 	ImportFrom int      `json:"import_from,omitempty"` // import only logs with id >= this
 	ImportTo   int      `json:"import_to,omitempty"`   // import only logs with id <= this
 	Remainder  bool     `json:"remainder,omitempty"`   // import the logs the destination does not have yet
+	ImportOrder []int   `json:"import_order,omitempty"` // import exactly the logs with these ids, in this order
 	Raw        *Request `json:"raw,omitempty"`
 	Capture    string   `json:"capture,omitempty"` // raw admin requests: remember data.id under this name ("reset": mark a reset)
 	SleepMs    int      `json:"sleep_ms,omitempty"`
@@ -358,6 +359,9 @@ func (o *Op) Render(exports map[string]string) Request {
 	case KImport:
 		r.Path = prefix + "/logs/import"
 		r.Body = filterExport(exports[o.From], o.ImportFrom, o.ImportTo)
+		if len(o.ImportOrder) > 0 {
+			r.Body = permuteExport(exports[o.From], o.ImportOrder)
+		}
 		if r.Chunked == 0 {
 			r.Chunked = 1 << 20
 		}
@@ -382,6 +386,7 @@ type Outcome struct {
 	Invoke  uint64
 	Return  uint64
 	BodyLen int
+	Body    []byte `json:"-"` // whole response body, kept for read requests (raw GET, export)
 }
 
 type TxView struct {
@@ -457,6 +462,9 @@ func ParseOutcome(op *Op, resp Response, hdrHit bool) Outcome {
 		_ = dec.Decode(&env)
 	}
 	out.Code, out.Msg, out.Data = env.ErrorCode, env.ErrorMessage, env.Data
+	if op.Kind == KRaw || op.Kind == KExport {
+		out.Body = resp.Body
+	}
 	out.Hit = hdrHit
 	switch {
 	case resp.Status >= 200 && resp.Status < 300:
